@@ -446,6 +446,12 @@ pub fn gen_c14(out: &mut dyn Write, seed: u64, thorough: bool) {
         for n in [123usize, 124, 125, 126, 250, 774, 775, 776] {
             cases.push("\u{3bb}".repeat(n));
         }
+        // macro strings whose body itself ends with (or consists of) the trailer / header bytes, Latin-1 and UTF-8 bodies
+        for head in ["[)>\x1E05\x1D", "[)>\x1E06\x1D"] {
+            for body in ["abc\x1E\x04", "\x1E\x04", "\x1E\x04\x1E\x04", "[)>\x1E05\x1Dx\x1E\x04", "\u{3bb}\x1E\x04", "\u{e9}\x1E\x04", "a\x1E", "\x04", "\u{1F600}z\x1E\x04"] {
+                cases.push(format!("{}{}\x1E\x04", head, body));
+            }
+        }
         for st in cases {
             match enc(&st) {
                 Ok(cw) => {
